@@ -480,3 +480,19 @@ def field_reads(facts, tw, field_name):
                     if name == field_name:
                         out.append((f, blk["bb"], owner))
     return out
+
+
+# --------------------------------------------------------------------------- naming closures of gen_openapi by role
+GEN_ROLES = [("openapiv3::ParameterData", "parameters"), ("openapiv3::RequestBody", "request-body"), ("openapiv3::Header", "response-headers"),
+             ("gen_openapi::ErrorResponse", "error-response"), ("openapiv3::Operation", "response")]
+
+
+def gen_role(f):
+    """Name gen_openapi or one of its closures by what it builds (closure numbers shift when code is added)."""
+    built = set(st["rv"]["adt"] for bb, i, st in f.stmts() if st["rv"]["rv"] == "agg" and st["rv"].get("agg") == "adt")
+    for adt, role in GEN_ROLES:
+        if any(b.endswith(adt) for b in built):
+            return role
+    if f.raw["kind"] != "Closure":
+        return "response"
+    return f.id.split("gen_openapi")[-1].lstrip(":") or "gen_openapi"
